@@ -25,16 +25,16 @@ func init() {
 }
 
 type c14iter struct {
-	consume  *Term // consuming form: the loop variable holding the not yet visited part of the slice
-	consIdx  *Term // consuming form: index of the visited element within consume (0, or len(consume)-1)
-	li       *LoopInfo
-	kind     string // slice | map
-	over     *Term
-	idx      *Term // slice loops: the index term used (φ or φ+1)
-	next     *Term // map loops: the next-tuple
-	full     bool
-	fullRev  bool // visits len-1 .. 0
-	idxPhi   *ssa.Phi
+	consume *Term // consuming form: the loop variable holding the not yet visited part of the slice
+	consIdx *Term // consuming form: index of the visited element within consume (0, or len(consume)-1)
+	li      *LoopInfo
+	kind    string // slice | map
+	over    *Term
+	idx     *Term // slice loops: the index term used (φ or φ+1)
+	next    *Term // map loops: the next-tuple
+	full    bool
+	fullRev bool // visits len-1 .. 0
+	idxPhi  *ssa.Phi
 }
 
 func (it *c14iter) isElem(t *Term) bool {
@@ -786,12 +786,12 @@ func runC14(c *Ctx) {
 
 	// ---- early-exit-table
 	type eet struct {
-		name       string
-		overParam  int
-		pred       string // "eq-value" | "cb" | "cb-eq"
-		matchPol   bool   // polarity of the predicate that exits
-		onMatch    string // "idx" | "true" | "false" | "keytrue"
-		onExhaust  string // "-1" | "true" | "false" | "zerofalse"
+		name      string
+		overParam int
+		pred      string // "eq-value" | "cb" | "cb-eq"
+		matchPol  bool   // polarity of the predicate that exits
+		onMatch   string // "idx" | "true" | "false" | "keytrue"
+		onExhaust string // "-1" | "true" | "false" | "zerofalse"
 	}
 	for _, row := range []eet{
 		{"slices.Index", 0, "eq-value", true, "idx", "-1"},
@@ -1027,9 +1027,9 @@ func runC14(c *Ctx) {
 		}
 	}
 	type flt struct {
-		name   string
-		pred   string // cb | contains-result | containsfunc-result | has
-		keep   bool   // predicate polarity under which the element is kept
+		name string
+		pred string // cb | contains-result | containsfunc-result | has
+		keep bool   // predicate polarity under which the element is kept
 	}
 	for _, row := range []flt{{"slices.Filter", "cb", true}, {"slices.Distinct", "contains-result", false}, {"slices.DistinctFunc", "containsfunc-result", false}, {"slices.ExceptSet", "has", false}} {
 		fi := c.P.Func(row.name)
